@@ -9,6 +9,7 @@
                function; stored single outputs and learner elements are returned before any user call
   4 no-delete  nothing in the map modules deletes from a run folder except _cleanup_run_folder under `if cleanup`
   5 propagate  handle_error never returns normally (shared with C13)
+  6 gate       the cleanup=False gate receives the values in the form in which they are recorded (no normalisation after the gate)
 """
 
 from __future__ import annotations
@@ -353,13 +354,54 @@ def rule_propagate(ctx: Ctx) -> None:
     ctx.add("5-propagate", he, he.node, ok, "handle_error always raises" if ok else "handle_error can return normally", key="noreturn")
 
 
+def rule_gate_like_with_like(ctx: Ctx) -> None:
+    """The cleanup=False gate compares the new run with the recorded one like with like.
+
+    RunInfo.create records values in run_info.json and, on the next run, hands values to the gate that compares them with
+    the recorded ones.  If a value is *normalised after* the gate was called (rebound between the gate call and the
+    constructor call), the gate compares the raw value with the recorded normalised one and an identical re-run is refused
+    ("... do not match previous run") instead of resumed.  Rule: every local of `create` that is passed to the gate and also
+    (under the same name) to the RunInfo constructor has all its rebinding statements BEFORE the gate call on every path."""
+    P = ctx.prog
+    ri = P.cls("pipefunc.map._run_info.RunInfo")
+    create = ri.methods["create"]
+    load_q = ri.methods["load"].qualname
+    cfg = ctx.cfg(create)
+    gates = [s_ for s_ in ctx.cg.sites.get(create.qualname, []) if any(c.qualname != load_q and load_q in ctx.cg.reachable(c.qualname) for c in s_.callees)]
+    ctors = [c for c in ast.walk(create.node) if isinstance(c, ast.Call) and norm(c.func) in ("cls", "RunInfo")]
+    if not gates or not ctors:
+        ctx.add("6-gate", create, create.node, None, "UNDECIDED: the call that compares with the previous run (a callee reaching RunInfo.load) or the constructor call was not found in RunInfo.create", key="gate")
+        return
+    gate = gates[0].node
+    gn = cfg.node_containing(gate)
+    stored = {x.id for c in ctors for part in [*c.args, *[k.value for k in c.keywords]] for x in ast.walk(part) if isinstance(x, ast.Name)}
+    # names whose value reaches the constructor through other locals (shapes computed from internal_shapes, ...)
+    for _ in range(3):
+        for a in walk_no_nested(create.node):
+            if isinstance(a, ast.Assign) and any(isinstance(x, ast.Name) and x.id in stored for t in a.targets for x in ast.walk(t)):
+                stored |= {x.id for x in ast.walk(a.value) if isinstance(x, ast.Name)}
+    passed = {x.id for part in [*gate.args, *[k.value for k in gate.keywords]] for x in ast.walk(part) if isinstance(x, ast.Name)}
+    n = 0
+    for name in sorted(passed & stored):
+        rebinds = [a for a in walk_no_nested(create.node) if isinstance(a, (ast.Assign, ast.AnnAssign, ast.AugAssign)) and any(isinstance(t, ast.Name) and t.id == name for t in (a.targets if isinstance(a, ast.Assign) else [a.target]))]
+        if not rebinds:
+            continue
+        n += 1
+        late = [a for a in rebinds if gn is not None and cfg.node(a) in cfg.reachable_from(gn)]
+        ctx.add("6-gate", create, late[0] if late else gate, not late, f"`{name}` has its final (recorded) value when the gate compares it with the previous run" if not late else
+                f"`{norm(late[0])[:70]}` rebinds `{name}` AFTER it was handed to the cleanup=False gate: the gate compares the raw value with the normalised one recorded by the previous run, so an identical re-run is refused instead of resumed", key=f"gate {name}")
+    ctx.add("6-gate", create, gate, True, f"gate call found; {len(passed & stored)} value(s) are both compared and recorded, {n} of them rebound in create", key="gate-scan")
+
+
 def check(ctx: Ctx) -> None:
-    for rule in (rule_atomic, rule_guarded, rule_missing, rule_no_delete, rule_propagate):
+    for rule in (rule_atomic, rule_guarded, rule_missing, rule_no_delete, rule_propagate, rule_gate_like_with_like):
         ctx.run(rule)
 
 
 U, RIF, R, D, A = "pipefunc/_utils.py", "pipefunc/map/_run_info.py", "pipefunc/map/_run.py", "pipefunc/map/_storage_array/_dict.py", "pipefunc/map/adaptive.py"
 MUTANTS = [
+    Mutant("gate-before-construct-F37", RIF, "        # The previous run info stores the constructed internal shapes, compare like with like\n        internal_shapes = _construct_internal_shapes(internal_shapes, pipeline)\n        if run_folder is not None:\n            if cleanup:\n                _cleanup_run_folder(run_folder)\n            else:\n                _compare_to_previous_run_info(pipeline, run_folder, inputs, internal_shapes)\n        _check_inputs(pipeline, inputs)\n",
+           "        if run_folder is not None:\n            if cleanup:\n                _cleanup_run_folder(run_folder)\n            else:\n                _compare_to_previous_run_info(pipeline, run_folder, inputs, internal_shapes)\n        _check_inputs(pipeline, inputs)\n        internal_shapes = _construct_internal_shapes(internal_shapes, pipeline)\n", ("C05.6-gate",), why="original F37"),
     Mutant("dump-in-place-F06", U, "    with atomic_write(path, \"wb\") as f:\n        cloudpickle.dump(obj, f)\n", "    with path.open(\"wb\") as f:\n        cloudpickle.dump(obj, f)\n", ("C05.1-atomic",), why="original F06"),
     Mutant("runinfo-dump-in-place-F06", RIF, "        with atomic_write(path, \"w\") as f:\n", "        with path.open(\"w\") as f:\n", ("C05.1-atomic",), why="original F06"),
     Mutant("replace-before-close", U, "        with tmp.open(mode) as f:\n            yield f\n        tmp.replace(path)\n", "        with tmp.open(mode) as f:\n            yield f\n            tmp.replace(path)\n", ("C05.1-atomic",), why="seeded C05/1"),
